@@ -8,4 +8,12 @@ cd "$HERE/harness"
 go build -o "$HERE/.bin/vcheck" ./cmd/vcheck
 python3 maporder/patch.py "$(go env GOROOT)" "$HERE/.bin/maporder"
 go build -overlay "$HERE/.bin/maporder/overlay.json" -tags verifmap -o "$HERE/.bin/mapchild" ./cmd/mapchild
+# warm the build cache for the instrumented (overlay) flavour and the -race flavour
+go build -o "$HERE/.bin/instrument" ./cmd/instrument
+TMPI="$(mktemp -d /tmp/verif-setup-XXXXXX)"
+"$HERE/.bin/instrument" -repo "$VERIF_REPO" -rt "$HERE/harness/verifrt" -out "$TMPI/ins" server/job.go server/server.go server/wrapped_http/serve_mux.go prover/marshal.go prover/insertion_proving_system.go prover/deletion_proving_system.go
+go build -overlay "$TMPI/ins/overlay.json" -tags verif -o "$HERE/.bin/vsched-setup" ./cmd/vsched
+go build -race -o "$TMPI/racepass" ./cmd/racepass
+(cd "$VERIF_REPO" && go build -o "$TMPI/gnark-mbu" .)
+rm -rf "$TMPI" "$HERE/.bin/vsched-setup"
 echo "setup ok"
